@@ -276,8 +276,9 @@ theorem streamFrom_spec (c : Cfg) (B : Bank α) (w : WF c B) (x : List α) :
     refine ⟨st2, ?_, g2, by rw [g3, h3], by omega⟩
     unfold streamFrom
     rw [chunk_started c B st ch inv.started]
-    conv => lhs; arg 1; rw [hch]
-    rw [h1]
+    have hcc : chunkCore c B st ch = chunkCore c B st (seg (sigZ x) n ch.length) :=
+      congrArg (chunkCore c B st) hch
+    rw [hcc, h1]
     simp only
     rw [← h3, g1]
     simp only
@@ -292,8 +293,8 @@ theorem stream_spec (c : Cfg) (B : Bank α) (w : WF c B) (st : St α) (dt : DTyp
   cases chunks with
   | nil =>
     refine ⟨st, ?_, hst, by simp⟩
-    have : (0 + c.S / 2) / c.S = 0 := Nat.div_eq_of_lt (by have := Nat.div_lt_self hS (by omega : 1 < 2); omega)
-    simp [streamFrom, finalize, hst, spec, this]
+    simp [streamFrom, finalize, hst, spec]
+    right; exact Nat.div_lt_self hS (by omega)
   | cons ch rest =>
     have inv0 := inv_reset c B w (sigZ (ch :: rest).flatten) (fun p hp => sigZ_neg _ p hp) dt
     have hd : (reset c B dt).dtype = dt := rfl
@@ -305,7 +306,9 @@ theorem stream_spec (c : Cfg) (B : Bank α) (w : WF c B) (st : St α) (dt : DTyp
     rw [← h1]
     -- the first call resets: same as starting from the reset state
     unfold streamFrom
-    rw [chunk_fresh c B st dt ch hst hf, chunk_started c B (reset c B dt) ch rfl]
+    rw [chunk_fresh c B st dt ch hst hf,
+      show chunk c B (reset c B dt) dt ch = chunkCore c B (reset c B dt) ch from
+        chunk_started c B (reset c B dt) ch rfl]
 
 /-- **`compute_full` equals the specification** -/
 theorem full_spec (c : Cfg) (B : Bank α) (w : WF c B) (st : St α) (dt : DType)
